@@ -177,6 +177,7 @@ def run(ctx):
     # ---- 5: the same routine entered from several Python threads (what a threaded dask scheduler does): every label map must
     # be the serial one.  (The schedule itself is modelled and trace-validated under C07; this is the C04 face of it.)
     concurrent_callers(ctx)
+    layouts(ctx)
     ctx.assume("inputs are integer-valued (float32-exact); inputs whose exact level quotient is a half-integer are "
                "excluded unless (ihmax-1)/(zmax-zmin) is dyadic (C round() vs exact arithmetic)")
     ctx.assume("TLC's transcription is bound to the C code by exact output equality on every enumerated input and by "
@@ -220,6 +221,36 @@ def _threaded_maps(seed, n, nk, nth, workers):
         par = list(ex.map(one, specs * 3))
     bad = sum(1 for k, m in enumerate(par) if isinstance(m, str) or not np.array_equal(m, serial[k % n]))
     return bad, len(par)
+
+
+def layouts(ctx):
+    """the numpy-level entry point on spectra stored direction-major (transposed views, Fortran order, strided): same basins."""
+    from wavespectra.partition import partition as pmod
+    rng = np.random.RandomState(ctx.seed + 5)
+    bad = 0
+    for k in range(12 if ctx.quick else 120):
+        nk, nth = [(6, 8), (8, 6), (7, 7), (12, 5)][k % 4]
+        ii, jj = np.meshgrid(np.arange(nk), np.arange(nth), indexing="ij")
+        a = np.zeros((nk, nth))
+        for _ in range(3):
+            ci, cj, amp = rng.randint(1, nk - 1), rng.randint(0, nth), rng.randint(30, 90)
+            dj = np.minimum((jj - cj) % nth, (cj - jj) % nth)
+            a += np.maximum(0, amp - 3.0 * (np.abs(ii - ci) + dj) ** 2)
+        a = np.ascontiguousarray(a + rng.randint(0, 3, size=a.shape), dtype="float64")
+        freq, dirs = 0.05 + 0.03 * np.arange(nk), np.arange(nth) * (360.0 / nth)
+        ref = np.asarray(pmod.np_ptm3(a, a, freq, dirs, None, 100))
+        big = np.zeros((2 * nk, 2 * nth))
+        big[::2, ::2] = a
+        for name, arr in (("transposed view", np.ascontiguousarray(a.T).T), ("Fortran order", np.asfortranarray(a)), ("strided view", big[::2, ::2]),
+                          ("float32 transposed", np.ascontiguousarray(a.T.astype("float32")).T)):
+            ctx.case(("layout", k, name), True)
+            got = np.asarray(pmod.np_ptm3(arr, arr, freq, dirs, None, 100))
+            if got.shape == ref.shape and np.allclose(got, ref, rtol=1e-6):
+                ctx.replayed()
+            else:
+                bad += 1
+                ctx.violation({"where": "layout", "layout": name}, "np_ptm3 on a %s gives %d partitions, %d on the C-ordered copy of the same spectrum" %
+                              (name, got.shape[0], ref.shape[0]), {"shape": [nk, nth]})
 
 
 def concurrent_callers(ctx):
